@@ -86,3 +86,66 @@ Theorem C10_constructor_accepted_and_faithful :
               s_timeout := station_lifetime (used_after o) |}.
 Proof. exact constructor_accepted_and_faithful. Qed.
 Print Assumptions C10_constructor_accepted_and_faithful.
+
+(* ---------------- the detector's table over time (drop_stale_sessions, update_session, the pubsub loop) ---------------- *)
+
+(* "The detector forwards a session for as long as the station would accept it."  The station's
+   rule (C08; constants pinned by C10_lifetime_values) keeps a registration made at t_reg while
+   t <= t_reg + 10 min, and once used while t <= t_reg + 6 h.  New is announced when the registration
+   is validated (t_reg <= ta), Update when it is first used.  Whatever the detector's table held
+   before (st0, p1) and whatever happens afterwards (p2: other announcements, direct inserts, packets,
+   lookups, sweeps at any times -- anything but a Clear, which the station only sends when it stops
+   accepting everything), after every event that happens before t_reg + lifetime the session is
+   tracked.  (Boundary: the instant t_reg + lifetime itself is excluded -- a sweep at exactly
+   ta + lifetime drops the entry, `v > now`.  The station additionally keeps an expired
+   registration until its own next 3-minute sweep; in that window, at most 3 min minus (ta - t_reg),
+   the station may still accept while the detector may already have dropped: see notes.) *)
+Theorem C10_forwarded_while_station_accepts :
+  forall c w s r o st0 p1 p2 t_reg ta,
+  sel_wf s -> In r (ingest c w s) -> (o = ONew \/ o = OUpdate) -> t_reg <= ta ->
+  (forall t e, In (t, e) p2 -> t < t_reg + station_lifetime (used_after o) /\ not_clear e) ->
+  exists sess,
+    handle_s2d (announce r o) = DAdd sess /\
+    tracked (tag sess) (drun st0 (p1 ++ (ta, EMsg (announce r o)) :: p2)) = true.
+Proof. exact forwarded_while_station_accepts. Qed.
+Print Assumptions C10_forwarded_while_station_accepts.
+
+(* the same with the expiry made explicit, for any acceptable registration *)
+Theorem C10_held_after_announcement :
+  forall st0 p1 p2 ta r o,
+  reg_ok r = true -> (o = ONew \/ o = OUpdate) ->
+  (forall t e, In (t, e) p2 -> t < ta + station_lifetime (used_after o) /\ not_clear e) ->
+  exists sess v,
+    handle_s2d (announce r o) = DAdd sess /\
+    lookup (tag sess) (drun st0 (p1 ++ (ta, EMsg (announce r o)) :: p2)) = Some v /\
+    ta + station_lifetime (used_after o) <= v /\
+    tracked (tag sess) (drun st0 (p1 ++ (ta, EMsg (announce r o)) :: p2)) = true.
+Proof. exact held_after_announcement. Qed.
+Print Assumptions C10_held_after_announcement.
+
+(* Conversely: if everything that asked for key k stays below E (an announcement asks for
+   now + its lifetime, a packet of the flow for now + 5 min), the first sweep at or after E removes
+   the session and it stays removed until it is announced again; with a sweep every P the detector
+   therefore stops forwarding no later than E + P. *)
+Theorem C10_dropped_at_first_sweep_after_expiry :
+  forall k E st0 h1 s h2,
+  bounded_k k E st0 ->
+  (forall t e, In (t, e) h1 -> adds_le k E t e) ->
+  E <= s ->
+  (forall t e, In (t, e) h2 -> quiet k e) ->
+  lookup k (drun st0 (h1 ++ (s, ESweep) :: h2)) = None /\
+  tracked k (drun st0 (h1 ++ (s, ESweep) :: h2)) = false.
+Proof. exact dropped_at_first_sweep_after_expiry. Qed.
+Print Assumptions C10_dropped_at_first_sweep_after_expiry.
+
+(* ... and a registration's announcements ask for exactly its lifetime, never more *)
+Theorem C10_announcement_asks_exactly_lifetime :
+  forall r o ta k, adds_le k (ta + station_lifetime (used_after o)) ta (EMsg (announce r o)).
+Proof. exact announce_adds_le. Qed.
+Print Assumptions C10_announcement_asks_exactly_lifetime.
+
+(* ingest_from_pubsub adds nothing of its own: receive / payload / decode errors are skipped and
+   the table is exactly what the handler makes of the decoded messages *)
+Theorem C10_pubsub_loop_is_handler : forall h st, prun st h = drun st (pmsgs h).
+Proof. exact pubsub_loop_is_handler. Qed.
+Print Assumptions C10_pubsub_loop_is_handler.
